@@ -200,35 +200,35 @@ def flush (env : Env) (args : List Bytes) (arg : Bytes) (chunk : Option Bytes) :
   | none => some args
   | some ch => (expand env ch).map (fun e => args ++ [arg ++ e])
 
-/-- `ts.parse`: state = (args, arg, text of the current chunk if `start >= 0`, quoted). -/
-def tok (env : Env) : Bytes → List Bytes → Bytes → Option Bytes → Bool → Tok
-  | [], args, arg, chunk, quoted =>
+/-- `ts.parse`: state = (args, arg, text of the current chunk if `start >= 0`, quoted, skip);
+`skip` = the `i++` after a doubled quote: the next byte (the second quote) is already in the chunk. -/
+def tok (env : Env) : Bytes → List Bytes → Bytes → Option Bytes → Bool → Bool → Tok
+  | [], args, arg, chunk, quoted, _ =>
     if quoted then .fatal
     else match flush env args arg chunk with
       | none => .unmodelled
       | some a => .ok a
-  | c :: rest, args, arg, chunk, false =>
+  | _ :: rest, args, arg, chunk, quoted, true => tok env rest args arg chunk quoted false
+  | c :: rest, args, arg, chunk, false, false =>
     if isSep c then
       match flush env args arg chunk with
       | none => .unmodelled
-      | some a => if c == 35 then .ok a else tok env rest a [] none false
+      | some a => if c == 35 then .ok a else tok env rest a [] none false false
     else if c == 39 then
       match chunk with
-      | none => tok env rest args arg (some []) true
+      | none => tok env rest args arg (some []) true false
       | some ch =>
         match expand env ch with
         | none => .unmodelled
-        | some e => tok env rest args (arg ++ e) (some []) true
-    else tok env rest args arg (some (chunk.getD [] ++ [c])) false
-  | c :: rest, args, arg, chunk, true =>
+        | some e => tok env rest args (arg ++ e) (some []) true false
+    else tok env rest args arg (some (chunk.getD [] ++ [c])) false false
+  | c :: rest, args, arg, chunk, true, false =>
     if c == 39 then
-      match rest with
-      | 39 :: rest2 => tok env rest2 args (arg ++ chunk.getD []) (some [39]) true
-      | _ => tok env rest args (arg ++ chunk.getD []) (some []) false
-    else tok env rest args arg (some (chunk.getD [] ++ [c])) true
-termination_by b => b.length
+      if rest.head? == some 39 then tok env rest args (arg ++ chunk.getD []) (some [39]) true true
+      else tok env rest args (arg ++ chunk.getD []) (some []) false false
+    else tok env rest args arg (some (chunk.getD [] ++ [c])) true false
 
-def tokenize (env : Env) (line : Bytes) : Tok := tok env line [] [] none false
+def tokenize (env : Env) (line : Bytes) : Tok := tok env line [] [] none false false
 
 /-! ### conditions -/
 
